@@ -33,7 +33,7 @@ ASSUMPTIONS = ["acceptance bands are 6.5 standard errors wide; a wrong factor (2
                "normality of the increments is not part of the statement and is not tested"]
 TIERS = {"quick": dict(runs=160, budget_s=45, shrink=30, min_nontrivial=2),
          "thorough": dict(runs=900, budget_s=900, shrink=60)}
-REQUIRED_PROBES = ["horizontal", "vertical", "vertical_with_advection", "nonuniform_metric_cells_changed", "anisotropic", "zero_coefficients", "warm_start_f4"]
+REQUIRED_PROBES = ["horizontal", "vertical", "vertical_with_advection", "nonuniform_metric_cells_changed", "more_than_65536_particles", "anisotropic", "zero_coefficients", "warm_start_f4"]
 CASE_TIMEOUT = 600
 
 
@@ -43,7 +43,7 @@ def generate(seed: int, tier: str, idx: int) -> dict:
     dx = s.pick([10.0, 200.0, 1000.0, 4000.0, 20000.0])
     dy = dx * (s.pick([0.5, 2.0, 3.0]) if s.chance(0.4) else 1.0)
     kind = s.wpick([("diff", 8), ("zero", 1), ("warm", 1)])
-    N = 20000 if tier == "quick" else s.pick([20000, 100000, 1000000])
+    N = s.wpick([(20000, 6), (70000, 1)]) if tier == "quick" else s.pick([20000, 70000, 100000, 1000000])
     nsteps = s.randint(2, 12) if N > 100000 else s.randint(2, 50)
     # rms displacement per step between 1e-3 and 3 cells
     D = 0.0
@@ -307,6 +307,8 @@ def execute(sc) -> Result:
                 res.probes["vertical"] += 1
             if sc["analytic"].get("w0"):
                 res.probes["vertical_with_advection"] += 1
+            if N > 65536:
+                res.probes["more_than_65536_particles"] += 1
             if alt:
                 res.probes["nonuniform_metric"] += 1
                 if crossed:
